@@ -1,13 +1,16 @@
 #!/bin/bash
+# (works from whatever copy of /verif it is started in: a vp run snapshot keeps its own .build and evidence)
 # usage: seedregress.sh [seed-id ...]   -- re-runs every seeded change (or the named ones) against its property's quick check,
 # each in a scratch worktree of /repo (VERIF_REPO); prints one line per seed: DETECTED / MISSED / MACHINERY / NOAPPLY
-cd /verif
+cd "$(dirname "$0")/.." || exit 2
+V=$(pwd)
+[ -d .build/vendor ] || ./setup.sh > /tmp/seedreg_setup.out 2>&1
 ids="$@"; [ -z "$ids" ] && ids=$(ls seeded)
 for id in $ids; do
   prop=${id%%-*}
   wt=/tmp/seedreg_$$_$id
   git -C /repo worktree add -q --detach $wt HEAD || { echo "$id WORKTREE-FAILED"; continue; }
-  if ! git -C $wt apply --whitespace=nowarn /verif/seeded/$id/patch.diff 2>/dev/null; then
+  if ! git -C $wt apply --whitespace=nowarn $V/seeded/$id/patch.diff 2>/dev/null; then
     echo "$id NOAPPLY"
   else
     VERIF_REPO=$wt timeout 3000 ./check $prop > /tmp/seedreg_$id.out 2>&1; rc=$?
